@@ -122,17 +122,26 @@ class Outcome:
         self.kind, self.key, self.what, self.checked = kind, key, what, checked
 
 
+class Pending:
+    'an array the real code produced for a valid case, waiting for (batched) evaluation'
+    __slots__ = 'engine', 'case', 'label', 'order', 'proj', 'arr'
+
+    def __init__(self, engine, case, label, order, proj, arr):
+        self.engine, self.case, self.label, self.order, self.proj, self.arr = engine, case, label, order, proj, arr
+
+
 def classify(exc, syntax_error):
     if isinstance(exc, syntax_error):
         return 'rejected'
     return 'raised-' + type(exc).__name__
 
 
-def judge(engine, case, world, evaluate, syntax_error, orders):
-    """evaluate: order -> array (or raises).  orders: list of (label, order, model array proj).
-    Returns an Outcome; the verdict is the model's (case['ok'])."""
+def parse_case(engine, case, evaluate, syntax_error, orders):
+    """Feed the string to the real code once per order.  evaluate: order -> array (or raises);
+    orders: list of (label, order, model array).  The verdict is the model's (case['ok']).
+    Returns (final Outcome or None, list of Pending arrays whose values are still to be compared)."""
     s = text(case)
-    checked = 0
+    pend = []
     for label, order, proj in orders:
         try:
             with warnings.catch_warnings():
@@ -144,37 +153,37 @@ def judge(engine, case, world, evaluate, syntax_error, orders):
             how = classify(ex, syntax_error)
             msg = str(ex).split('\n')[0][:160]
         if case['ok'] == 'skip':
-            return Outcome('skip')
+            return Outcome('skip'), []
         if case['ok'] == 'bad':
             if how == 'value':
                 return Outcome('violation', '{}:accepted:{}'.format(engine, case['why']),
-                               '{} evaluated {!r} (shape {}) although it violates the documented rule {!r}'.format(engine, s, numpy.shape(arr), case['why']))
+                               '{} evaluated {!r} (shape {}) although it violates the documented rule {!r}'.format(engine, s, numpy.shape(arr), case['why'])), []
             if how != 'rejected':
                 return Outcome('violation', '{}:{}:{}'.format(engine, how, 'unknown-function' if 'nofunc' in case['ops'] else case['why']),
-                               '{} refused {!r} (rule {!r}) with {} instead of its ExpressionSyntaxError: {}'.format(engine, s, case['why'], how[7:], msg))
-            checked += 1
+                               '{} refused {!r} (rule {!r}) with {} instead of its ExpressionSyntaxError: {}'.format(engine, s, case['why'], how[7:], msg)), []
             continue
         # the model says: valid, with this array
         if how != 'value':
             return Outcome('violation', '{}:valid-{}:{}'.format(engine, how, opsig(case)),
-                           '{} {} the valid expression {!r} ({}): {}'.format(engine, 'rejected' if how == 'rejected' else 'raised ' + how[7:] + ' on', s, label, msg))
-        sh, want0, want1, mask = model_array(proj)
+                           '{} {} the valid expression {!r} ({}): {}'.format(engine, 'rejected' if how == 'rejected' else 'raised ' + how[7:] + ' on', s, label, msg)), []
+        sh = tuple(proj['sh'])
         if tuple(numpy.shape(arr)) != sh:
             return Outcome('violation', '{}:shape:{}'.format(engine, opsig(case)),
-                           '{} {!r} ({}): shape {} instead of {} for axes {}'.format(engine, s, label, numpy.shape(arr), sh, ''.join(order)))
-        try:
-            got0, got1 = world.both_sides(arr)
-        except Exception as ex:
-            if mask.all():
-                return Outcome('violation', '{}:eval-raised-{}:{}'.format(engine, type(ex).__name__, opsig(case)),
-                               '{} {!r}: evaluation raised {!r}'.format(engine, s, ex))
-            return Outcome('skip')
-        if not close(got0, want0, mask) or not close(got1, want1, mask):
-            return Outcome('violation', '{}:value:{}'.format(engine, opsig(case)),
-                           '{} {!r} ({}, axes {}): got {} / opposite {}, the index-notation reading is {} / {}'.format(
-                               engine, s, label, ''.join(order), numpy.asarray(got0).tolist(), numpy.asarray(got1).tolist(), want0.tolist(), want1.tolist()))
-        checked += int(mask.any())
-    return Outcome('ok', checked=checked)
+                           '{} {!r} ({}): shape {} instead of {} for axes {}'.format(engine, s, label, numpy.shape(arr), sh, ''.join(order))), []
+        pend.append(Pending(engine, case, label, order, proj, arr))
+    if case['ok'] == 'bad':
+        return Outcome('ok', checked=1), []
+    return None, pend
+
+
+def compare(p, got0, got1):
+    'values of one pending array against the model: Outcome'
+    sh, want0, want1, mask = model_array(p.proj)
+    if not close(got0, want0, mask) or not close(got1, want1, mask):
+        return Outcome('violation', '{}:value:{}'.format(p.engine, opsig(p.case)),
+                       '{} {!r} ({}, axes {}): got {} / opposite {}, the index-notation reading is {} / {}'.format(
+                           p.engine, text(p.case), p.label, ''.join(p.order), numpy.asarray(got0).tolist(), numpy.asarray(got1).tolist(), want0.tolist(), want1.tolist()))
+    return Outcome('ok' if mask.any() else 'skip', checked=int(mask.any()))
 
 
 class Replayer:
@@ -205,7 +214,7 @@ class Replayer:
         # `expr @ ns` orders the axes alphabetically
         fixed = [(label, case['fr'] if order is None else order, proj) for label, order, proj in orders]
         calls = iter([o for _, o, _ in orders])
-        return judge('v2', case, self.world, lambda order: evaluate(next(calls)), self.e2.ExpressionSyntaxError, fixed)
+        return parse_case('v2', case, lambda order: evaluate(next(calls)), self.e2.ExpressionSyntaxError, fixed)
 
     # -- version 1 ------------------------------------------------------------
     def v1_applicable(self, case):
@@ -228,4 +237,31 @@ class Replayer:
                 orders.append(('ns.eval_{}(expr)'.format(''.join(reversed(case['fr']))), list(reversed(case['fr'])), case['rev']))
         else:
             orders = [('ns.eval_{}(expr)'.format(''.join(case['guess'])), case['guess'], None)]
-        return judge('v1', case, self.world, evaluate, self.e1.ExpressionSyntaxError, orders)
+        return parse_case('v1', case, evaluate, self.e1.ExpressionSyntaxError, orders)
+
+    # -- evaluation of the produced arrays, batched (one compilation per batch) ---------------
+    def evaluate(self, pendings):
+        'list of Pending -> list of Outcome'
+        W = self.world
+        flat = []
+        for p in pendings:
+            flat += [p.arr, W.function.opposite(p.arr)]
+        try:
+            with warnings.catch_warnings(), numpy.errstate(all='ignore'):
+                warnings.simplefilter('ignore')
+                vals = W.sample.eval(flat)
+            vals = [numpy.asarray(v)[0] for v in vals]
+            return [compare(p, vals[2 * i], vals[2 * i + 1]) for i, p in enumerate(pendings)]
+        except Exception:
+            if len(pendings) > 1:      # find the culprit(s) one by one
+                return [self.evaluate([p])[0] for p in pendings]
+        p, = pendings
+        try:
+            got0, got1 = W.both_sides(p.arr)
+        except Exception as ex:
+            mask = model_array(p.proj)[3]
+            if mask.all():
+                return [Outcome('violation', '{}:eval-raised-{}:{}'.format(p.engine, type(ex).__name__, opsig(p.case)),
+                                '{} {!r}: evaluation raised {!r}'.format(p.engine, text(p.case), ex))]
+            return [Outcome('skip')]
+        return [compare(p, got0, got1)]
